@@ -155,7 +155,7 @@ TWrite ==
         THEN /\ WL[w].kind = "resp" /\ WL[w].id = o.id
              /\ DR[w].outcome = (IF o.res = "ok" THEN "result" ELSE "error")
              \* a text request's answer on the wire is the broker's text at that point (read-your-writes)
-             /\ DR[w].method = "$/verif/text" => DR[w].text = o.v
+             /\ (DR[w].method = "$/verif/text" /\ o.res = "ok") => DR[w].text = o.v   \* (null is logged as NoDoc)
         ELSE /\ WL[w].kind = "note" /\ WL[w].method = "textDocument/publishDiagnostics" /\ WL[w].uri = o.u
   /\ ResponderWrite
   /\ w' = w + 1 /\ UNCHANGED <<r, b, ds>>
